@@ -1,8 +1,8 @@
 #!/bin/bash
-# tools/runall.sh [quick|thorough] — runs every registered check sequentially on the current tree, prints one line per check
+# tools/runall.sh [quick|thorough] — runs every registered check (or those named in $IDS) sequentially on the current tree, prints one line per check
 tier="${1:-quick}"
 cd "$(dirname "$0")/.."
-for id in $(jq -r '.checks[].property_id' MANIFEST.json); do
+for id in ${IDS:-$(jq -r '.checks[].property_id' MANIFEST.json)}; do
   s=$(date +%s)
   out=$(timeout 3600 ./run "$id" "$tier" 2>&1); rc=$?
   e=$(( $(date +%s) - s ))
